@@ -633,7 +633,7 @@ void runFastCase(uint64_t c, rt::Rng rng) {
                     USubscription once = router->subscribe(build(key), [&calls](tulz::Observer<>::SelfView self) { ++calls; self->invalidate(); });
                     size_t r1 = router->notify(build(key)), r2 = router->notify(build(key));
                     bool valid = once->isValid(), rejected = false;
-                    try { once->unsubscribe(); } catch (const std::invalid_argument &) { rejected = true; }
+                    try { once->unsubscribe(); } catch (...) { rejected = true; }   // (the kind of exception is not part of any statement)
                     if (calls != 1 || keepCalls != 2 || r1 != 1 || r2 != 1 || valid || !rejected)
                         report("self-invalidating observer at " + patStr(key) + ": called " + std::to_string(calls) + " time(s) in two notifications, its neighbour " + std::to_string(keepCalls) +
                                " time(s) (returned " + std::to_string(r1) + " and " + std::to_string(r2) + "), handle valid afterwards: " + std::to_string(valid) +
